@@ -168,7 +168,15 @@ class Dendrogram(object):
 
         # Default min_val to the minimum in the data
         if min_value == "min":
-            min_value = np.min(data[np.isfinite(data)]) - 1
+            min_value = np.min(data[np.isfinite(data)])
+            if np.issubdtype(data.dtype, np.integer):
+                # avoid wrap-around in the array's own integer type
+                min_value = int(min_value) - 1
+            elif min_value - 1 < min_value:
+                min_value = min_value - 1
+            else:
+                # 1 is absorbed for large magnitudes: step to the next float below
+                min_value = np.nextafter(min_value, -np.inf)
 
         self = Dendrogram()
         self.data = data
